@@ -40,8 +40,8 @@ type boundedSpec struct {
 }
 
 var boundedSpecs = map[string]boundedSpec{
-	"c02_graph_test.go": {"TestVerifBoundedGraph", "all directed graphs (self-loops included) on n <= 4 named tasks, exhaustive",
-		"exhaustive for n <= 4; 300000 pseudo-random graphs each for n = 5 and n = 6", []string{"VERIF_BOUND_N=4"}, []string{"VERIF_BOUND_N=6", "VERIF_BOUND_SAMPLE=300000"}},
+	"c02_graph_test.go": {"TestVerifBoundedGraph", "all directed graphs (self-loops included) on n <= 4 named tasks and all labelled DAGs on 5 named tasks, exhaustive",
+		"all directed graphs on n <= 4 named tasks and all labelled DAGs on 5 and 6 named tasks (3.8 million), exhaustive; 300000 pseudo-random graphs each for n = 5 and n = 6 (cyclic ones included)", []string{"VERIF_BOUND_N=4", "VERIF_BOUND_DAGN=5"}, []string{"VERIF_BOUND_N=6", "VERIF_BOUND_DAGN=6", "VERIF_BOUND_SAMPLE=300000"}},
 	"c12_sort_test.go": {"TestVerifBoundedSort", "all sequences of creation times from {0..n-1} of length n <= 6, exhaustive (ties included)",
 		"exhaustive for length n <= 7; 200000 pseudo-random sequences of length 13..64 (pdqsort path)", []string{"VERIF_BOUND_N=6"}, []string{"VERIF_BOUND_N=7", "VERIF_BOUND_SAMPLE=200000"}},
 }
